@@ -30,3 +30,16 @@ Fixpoint seg_loop (acc : Q) (mask : list bool) (ds : list Q) : list Q :=
 Definition segments (res : Q) (ds : list Q) : list Q := seg_loop 0 (keep_mask res ds) ds.
 
 Fixpoint qsum (l : list Q) : Q := match l with [] => 0 | x :: l' => x + qsum l' end.
+
+(* PathTracer.spline: the control points handed to the interpolant are the current position followed by the given
+   (absolute) points, with consecutive duplicates removed *)
+Section SplineControls.
+  Variable A : Type.
+  Variable eqb : A -> A -> bool.
+  Fixpoint controls_go (lastc : A) (pts : list A) : list A :=
+    match pts with
+    | [] => []
+    | p :: pts' => if eqb p lastc then controls_go lastc pts' else p :: controls_go p pts'
+    end.
+  Definition spline_controls (origin : A) (pts : list A) : list A := origin :: controls_go origin pts.
+End SplineControls.
